@@ -72,9 +72,8 @@ pub fn run(rep: &Report) {
             }
         }
         if !rep.quick() {
-            // every triple: full catalogue on the two smallest bases, structural core on the others
-            let full = bases[bi].0 == "flat" || bases[bi].0 == "array" || bases[bi].0 == "single_disclosure" || bases[bi].0 == "no_sd_at_all";
-            let core: Vec<&Dev> = devs.iter().filter(|d| full || !matches!(d, Dev::DiscForm(..) | Dev::DiscName(..) | Dev::SdAddEntry(..) | Dev::PhDigest(..))).collect();
+            // every triple of the catalogue
+            let core: Vec<&Dev> = devs.iter().collect();
             for i in 0..core.len() {
                 for j in (i + 1)..core.len() {
                     for k in (j + 1)..core.len() {
@@ -115,7 +114,7 @@ pub fn run(rep: &Report) {
             _ => {}
         }
     });
-    rep.scope_done(json!({"scope": format!("{} bases x every {} of the deviation catalogue x 2 formats", bases.len(), if rep.quick() { "single deviation and every pair" } else { "single deviation, every pair, every triple of the full catalogue on 2 bases and of the structural core on the other 6" }), "structures": items.len()}));
+    rep.scope_done(json!({"scope": format!("{} bases x every {} of the deviation catalogue x 2 formats", bases.len(), if rep.quick() { "single deviation and every pair" } else { "single deviation, every pair and every triple" }), "structures": items.len()}));
     let b = sdbuild::build(&bases[0].1, &[Dev::DiscDropLast(0)]);
     rep.sample(json!({"base": "flat", "deviation": "DiscDropLast(0)", "payload": b.payload, "decoded_disclosures": b.disclosures.iter().map(|d| String::from_utf8_lossy(&codec::b64d(d).unwrap()).to_string()).collect::<Vec<_>>(), "spec": "Reject"}));
     let b = sdbuild::build(&bases[2].1, &[Dev::PhExtraMember(0)]);
